@@ -338,6 +338,67 @@ fn sched_iter_2() {
     iter_n::<2>()
 }
 
+// ---- C17: comments (real `Arc<str>` sets, real union) -----------------------------------------------------------------
+
+fn one_comment() -> UniqueSortedVec<Arc<str>> {
+    vec![Arc::<str>::from("rule comment")].into()
+}
+
+fn same_comments(a: &UniqueSortedVec<Arc<str>>, b: &UniqueSortedVec<Arc<str>>) -> bool {
+    a.len() == b.len() && (a.is_empty() || *a[0] == *b[0])
+}
+
+//@H props=C17,C04 tier=quick kind=bounded cap=1800 mem=medium bound="1 input range, comment set of 1 string" domain="bounds anywhere in 00:00..=48:00, all kinds"
+#[cfg_attr(kani, kani::proof)]
+#[cfg_attr(kani, kani::unwind(4))]
+#[cfg_attr(kani, kani::stub(core::slice::sort::unstable::sort, sort_model))]
+#[cfg_attr(verif_replay, test)]
+fn sched_comments_from_ranges_1() {
+    let comments = one_comment();
+    let r = any_time(48 * 60)..any_time(48 * 60);
+    let out = Schedule::from_ranges([r.clone()], any_kind(), &comments);
+    vpost!(
+        "C17.from_ranges.every_range_carries_exactly_the_given_comments",
+        out.inner.iter().all(|tr| same_comments(&tr.comments, &comments))
+    );
+    vpost!("C17.from_ranges.one_range_iff_input_nonempty", out.inner.len() == (r.start < r.end) as usize);
+    vcover!("comments_from_ranges.nonempty", out.inner.len() == 1);
+}
+
+//@H props=C17,C04 tier=quick kind=bounded cap=2400 mem=medium bound="schedule of 1 range with a comment set of 1 string" domain="bounds anywhere in 00:00..=48:00, all kinds, query minute 00:00..23:59"
+#[cfg_attr(kani, kani::proof)]
+#[cfg_attr(kani, kani::unwind(5))]
+#[cfg_attr(verif_replay, test)]
+fn sched_comments_iter_1() {
+    let comments = one_comment();
+    let (start, end) = (any_time(48 * 60), any_time(48 * 60));
+    nd::assume(start < end);
+    let kind = any_kind();
+    let s = Schedule { inner: vec![TimeRange { range: start..end, kind, comments: comments.clone() }] };
+    let q = any_time(24 * 60 - 1);
+    let mut k = 0;
+    let mut it = s.into_iter();
+    while k < 4 {
+        match it.next() {
+            None => break,
+            Some(item) => {
+                if item.range.start <= q && q < item.range.end {
+                    if start <= q && q < end {
+                        vpost!(
+                            "C17.iter.period_of_one_rule_carries_exactly_that_rules_comments",
+                            same_comments(&item.comments, &comments)
+                        );
+                    } else if kind != RuleKind::Closed || item.range.end <= start || item.range.start >= end {
+                        vpost!("C17.iter.holes_carry_no_comments", item.comments.is_empty());
+                    }
+                }
+            }
+        }
+        k += 1;
+    }
+    vcover!("comments_iter.three_items", k == 3);
+}
+
 //@H props=ENGINE tier=quick kind=canary cap=300 expect=fail
 #[cfg_attr(kani, kani::proof)]
 #[cfg_attr(verif_replay, test)]
